@@ -559,6 +559,95 @@ func c20kind(sig string) string {
 	return "oracle"
 }
 
+// ---- several consumers ----
+
+func c20multiLine(cfg c20stress.MultiConfig, race bool) string {
+	r := 0
+	if race {
+		r = 1
+	}
+	return fmt.Sprintf("c20 multi seed=%d chunks=%d consumers=%d procs=%d race=%d", cfg.Seed, cfg.Chunks, cfg.Consumers, cfg.Procs, r)
+}
+
+func c20parseMulti(line string) (cfg c20stress.MultiConfig, race, ok bool) {
+	f := strings.Fields(line)
+	if len(f) < 3 || f[0] != "c20" || f[1] != "multi" {
+		return cfg, false, false
+	}
+	for _, kv := range f[2:] {
+		p := strings.SplitN(kv, "=", 2)
+		if len(p) != 2 {
+			continue
+		}
+		v, _ := strconv.ParseUint(p[1], 10, 64)
+		switch p[0] {
+		case "seed":
+			cfg.Seed = v
+		case "chunks":
+			cfg.Chunks = int(v)
+		case "consumers":
+			cfg.Consumers = int(v)
+		case "procs":
+			cfg.Procs = int(v)
+		case "race":
+			race = v == 1
+		}
+	}
+	return cfg, race, cfg.Consumers > 0
+}
+
+// c20multiOne: one producer and cfg.Consumers consumers on the real queue, in-process or in the -race child.
+func (c *ctx) c20multiOne(cfg c20stress.MultiConfig, raceBin string) {
+	res := c.res
+	line := c20multiLine(cfg, raceBin != "")
+	if c20deadlocks >= 2 && c.replay == "" {
+		res.Count("conc:skipped-after-two-watchdog-hits")
+		return
+	}
+	var rep c20stress.MultiReport
+	if raceBin == "" {
+		rep = c20stress.RunMulti(cfg)
+	} else {
+		cmd := exec.Command(raceBin, "-mode", "multi", "-seed", strconv.FormatUint(cfg.Seed, 10), "-chunks", strconv.Itoa(cfg.Chunks),
+			"-consumers", strconv.Itoa(cfg.Consumers), "-procs", strconv.Itoa(cfg.Procs), "-timeout", "90s")
+		cmd.Env = append(os.Environ(), "GORACE=halt_on_error=1 exitcode=66")
+		var stdout, stderr bytes.Buffer
+		cmd.Stdout, cmd.Stderr = &stdout, &stderr
+		err := cmd.Run()
+		if strings.Contains(stderr.String(), "DATA RACE") {
+			d := stderr.String()
+			res.Case(line, true)
+			res.Fail("oracle", line, "race detector (several consumers): "+d[:c20min(len(d), 900)], "race")
+			return
+		}
+		if json.Unmarshal(bytes.TrimSpace(stdout.Bytes()), &rep) != nil {
+			e := stderr.String()
+			rep = c20stress.MultiReport{Violation: "multi-panic", Detail: fmt.Sprintf("child died (%v): %s", err, e[:c20min(len(e), 600)])}
+		}
+	}
+	res.Case(line, true)
+	res.InDomain++
+	key := fmt.Sprintf("multi:consumers=%d procs=%d", cfg.Consumers, cfg.Procs)
+	if raceBin != "" {
+		key += " race"
+	}
+	res.Count(key)
+	for k, v := range rep.Calls {
+		res.Distribution["multi-call:"+k] += v
+	}
+	res.Distribution["multi-dequeueall-lost-the-race(empty non-nil)"] += rep.EmptyAll
+	res.Distribution["multi-putbacks"] += rep.Putbacks
+	for i, n := range rep.PerCons {
+		res.Distribution[fmt.Sprintf("multi-chunks-to-consumer-%d", i)] += n
+	}
+	if rep.Violation == "multi-deadlock" {
+		c20deadlocks++
+	}
+	if rep.Violation != "" {
+		res.Fail("oracle", line, rep.Detail, rep.Violation)
+	}
+}
+
 // ---- integration layer: a real channel.Channel over a scripted transport ----
 
 func c20chanLine(cfg c20stress.ChanConfig, race bool) string {
@@ -856,7 +945,7 @@ func (c *ctx) c20raceChan(bin string, seed uint64, n int, only string) {
 
 func runC20(c *ctx) {
 	res := c.res
-	res.Rule = "sequential: every history of the exact length L (quick 6, thorough 7) over {Enqueue A, Enqueue B, Requeue A, Requeue B, Dequeue, DequeueAll, GetDepth} (every shorter history is a prefix), every history of length 5 (thorough 6) over {Enqueue A/B, Dequeue, DequeueAll, put back the last result, put back its second half, Enqueue(nil), Requeue(nil), GetDepth} + random histories up to 200 calls over chunks incl. empty / nil / 64 KiB / repeated; real util.Queue vs Lean Seq model vs list spec: all results, final depth, returned slices must not change afterwards (DequeueAll buffers are overwritten by the caller), Dequeue nil-ness pinned. integration: real channel.Channel over a scripted transport in a child process (kinds read, readall, mixed, prompt, explicit, fuzzy, getprompt, login-ssh, login-telnet, read-err, eof x read sizes 1..300 KiB x reads of length 0 / normalising to empty or nil x CR/ANSI x delays x feeding x channel log), judged end to end: normalised transport bytes = bytes operations obtained ++ bytes left, put-backs first, channel log = stream; replayed by the Lean reader consumeB with the model's normalisation; same under -race. concurrent: one producer + one consumer goroutine on the real queue (chunks of 1 byte .. 68 KiB), GOMAXPROCS 1/2/4/16, consumer checks its stream through a push-back reader (also replayed by the Lean reader `consume`), GetDepth bounds, nil-only-when-empty, watchdog; the same under -race in a child process. non-trivial = history with at least one insert and one removal (distinct by history) / every stress or integration run (distinct by configuration)"
+	res.Rule = "sequential: every history of the exact length L (quick 6, thorough 7) over {Enqueue A, Enqueue B, Requeue A, Requeue B, Dequeue, DequeueAll, GetDepth} (every shorter history is a prefix), every history of length 5 (thorough 6) over {Enqueue A/B, Dequeue, DequeueAll, put back the last result, put back its second half, Enqueue(nil), Requeue(nil), GetDepth} + random histories up to 200 calls over chunks incl. empty / nil / 64 KiB / repeated; real util.Queue vs Lean Seq model vs list spec: all results, final depth, returned slices must not change afterwards (DequeueAll buffers are overwritten by the caller), Dequeue nil-ness pinned. integration: real channel.Channel over a scripted transport in a child process (kinds read, readall, mixed, prompt, explicit, fuzzy, getprompt, login-ssh, login-telnet, read-err, eof x read sizes 1..300 KiB x reads of length 0 / normalising to empty or nil x CR/ANSI x delays x feeding x channel log), judged end to end: normalised transport bytes = bytes operations obtained ++ bytes left, put-backs first, channel log = stream; replayed by the Lean reader consumeB with the model's normalisation; same under -race. concurrent: one producer + one consumer goroutine on the real queue (chunks of 1 byte .. 68 KiB), GOMAXPROCS 1/2/4/16, consumer checks its stream through a push-back reader (also replayed by the Lean reader `consume`), GetDepth bounds, nil-only-when-empty, watchdog; one producer + 2 and 3 consumer goroutines (Dequeue / DequeueAll / GetDepth / Requeue of fresh chunks): no panic, no hang, every produced chunk delivered exactly once, per-consumer stream order; the same under -race in a child process. non-trivial = history with at least one insert and one removal (distinct by history) / every stress or integration run (distinct by configuration)"
 	if c.replay != "" {
 		if ops, ok := c20parseLine(c.replay); ok {
 			c.c20seqBatch([][]c20op{ops}, "replay")
@@ -877,6 +966,20 @@ func runC20(c *ctx) {
 			}
 			for i := 0; i < 5; i++ { // the runtime's schedule is not replayable: try a few times
 				c.c20stressOne(cfg)
+			}
+			return
+		}
+		if cfg, race, ok := c20parseMulti(c.replay); ok {
+			bin := ""
+			if race {
+				var why string
+				if bin, why = c.c20raceBinary(); bin == "" {
+					res.Note("race child unavailable: %s", why)
+					return
+				}
+			}
+			for i := 0; i < 5 && len(res.Findings) == 0; i++ { // the runtime's schedule is not replayable: a few times
+				c.c20multiOne(cfg, bin)
 			}
 			return
 		}
@@ -1099,8 +1202,6 @@ func runC20(c *ctx) {
 	phase("channel integration")
 	// observations, never judged
 	{
-		p, l, cl, st := c20stress.TwoConsumers(r.U64()>>1, c.n(5, 40), 20000)
-		res.Note("observation (outside the property: TWO consumer goroutines, which the library never runs — every operation waits for its reader goroutine): %d rounds: %d ended in an index-out-of-range panic in Dequeue, %d lost/duplicated chunks, %d clean, %d hung", p+l+cl+st, p, l, cl, st)
 		hi, hm := c20stress.HeadRetention()
 		res.Note("observation (memory, no bytes involved): after Dequeue the backing array keeps the handed-out chunk reachable while nothing is enqueued: %v; after 64 further Enqueue calls: %v", hi, hm)
 		res.Note("observation (memory): %s", c20stress.LongRun(c.n(200000, 1000000)))
@@ -1123,6 +1224,20 @@ func runC20(c *ctx) {
 		n := r.Range(20, 400)
 		c.c20stressOne(c20stress.Config{Seed: r.U64() >> 1, Chunks: n, Procs: procs[i%4], StopAfter: r.Range(1, n), Record: true, Timeout: 30 * time.Second})
 	}
+	// several consumers (the library gets there through Close running an on-close function that
+	// sends commands while an operation is in flight)
+	mchunks := c.n(20000, 200000)
+	mrounds := 1
+	if c.thorough() {
+		mrounds = 5
+	}
+	for round := 0; round < mrounds; round++ {
+		for _, k := range []int{2, 3} {
+			for _, p := range procs {
+				c.c20multiOne(c20stress.MultiConfig{Seed: r.U64() >> 1, Chunks: mchunks, Consumers: k, Procs: p}, "")
+			}
+		}
+	}
 	phase("queue stress")
 	// the same stress under the race detector, as a child process
 	bin, why := c.c20raceBinary()
@@ -1134,6 +1249,11 @@ func runC20(c *ctx) {
 		for round := 0; round < c.n(1, 3); round++ {
 			for _, p := range procs {
 				c.c20raceOne(bin, c20stress.Config{Seed: r.U64() >> 1, Chunks: rc, Procs: p})
+			}
+		}
+		for _, k := range []int{2, 3} {
+			for _, p := range []int{2, 16} {
+				c.c20multiOne(c20stress.MultiConfig{Seed: r.U64() >> 1, Chunks: c.n(6000, 100000), Consumers: k, Procs: p}, bin)
 			}
 		}
 		phase("queue stress under -race")
